@@ -27,6 +27,13 @@ def tla(x):
         neg = t.startswith("-")
         a, b = t.lstrip("-").split(".")
         return '[t |-> "flt", neg |-> %s, d |-> <<%s>>, e |-> %d]' % ("TRUE" if neg else "FALSE", ", ".join(a + b), -len(b))
+    if k == "fle":
+        t = x[1]
+        neg = t.startswith("-")
+        m, ex = t.lstrip("-").lower().split("e")
+        a, b = (m.split(".") + [""])[:2]
+        return '[t |-> "fle", neg |-> %s, d |-> <<%s>>, e |-> %d, xneg |-> %s, x |-> <<%s>>]' % (
+            "TRUE" if neg else "FALSE", ", ".join(a + b), -len(b), "TRUE" if ex.startswith("-") else "FALSE", ", ".join(ex.lstrip("-")))
     if k == "str":
         return '[t |-> "str", s |-> %s]' % cps(x[1])
     if k == "chr":
@@ -49,6 +56,7 @@ def tla(x):
 
 def I(t): return ("int", t)
 def F(t): return ("flt", t)
+def FE(t): return ("fle", t)
 def S(t): return ("str", t)
 def C(t): return ("chr", t)
 def Id(t): return ("id", t)
@@ -62,6 +70,7 @@ def V(*es): return ("vec", list(es))
 
 INTS = [I(t) for t in ["0", "7", "42", "-7", "-0", "2147483647", "-2147483647", "007"]]
 FLTS = [F(t) for t in ["1.5", "-1.5", "0.25", "100.0", "-0.0", "3.14159", "0.1", "12345.678"]]
+FLES = [FE(t) for t in ["1e3", "-1e3", "2.5e-3", "-2.5e-3", "1e16", "-1e16", "6.02e23", "1e0", "-0e0", "12e-1"]]
 STRS = [S(t) for t in ["", "a b", 'q"b\\c\nd', "λx", "(not . a list)", ";#|"]]
 CHRS = [C(t) for t in ["a", "Z", "λ", "(", "'", "0", ";", '"', "#", "\\"]]
 CONSTS = [("true",), ("false",), ("nil",)]
@@ -84,27 +93,27 @@ def dedup(xs):
     return out
 
 
-ATOMS = dedup(INTS + FLTS + STRS + CHRS + CONSTS + IDS + QSYMS + PSYMS + KWS + UNQS)
+ATOMS = dedup(INTS + FLTS + FLES + STRS + CHRS + CONSTS + IDS + QSYMS + PSYMS + KWS + UNQS)
 
 # one atom of every form, punctuation symbols of every spacing pattern: the elements of the exhaustive composites
-SMALL = [I("7"), I("-7"), F("1.5"), S("a b"), C("a"), ("true",), Id("foo"), Q("kebab-symbol"),
+SMALL = [I("7"), I("-7"), F("1.5"), FE("-2.5e-3"), S("a b"), C("a"), ("true",), Id("foo"), Q("kebab-symbol"),
          P("-"), P("..."), P("<="), P(":"), K("octo", "foo"), K("colon", "foo"), U("n"), U("e")]
 # the subset used by the quick tier
-SMALLQ = [I("7"), F("-1.5"), S("a b"), Id("foo"), P("-"), P("..."), P("<="), K("colon", "foo"), U("n")]
+SMALLQ = [I("7"), FE("-1e3"), S("a b"), Id("foo"), P("-"), P("..."), P("<="), K("colon", "foo"), U("n")]
 
 # what a pair dot can be followed by
-TAILS = [I("3"), I("-3"), Id("three"), P("..."), P("-"), P("<="), S("s"), K("octo", "k"), K("colon", "k"), U("n"), U("e"), U("v"),
+TAILS = [I("3"), I("-3"), FE("-1e16"), Id("three"), P("..."), P("-"), P("<="), S("s"), K("octo", "k"), K("colon", "k"), U("n"), U("e"), U("v"),
          L(), L(I("2"), I("3")), L(I("2"), tail=I("3")), L(I("2"), tail=L(I("3"), tail=L())), L(Id("x"), tail=U("n")),
          L(P("..."), tail=P("...")), V(I("1")), V(), ("nil",), C("a")]
 
 # neighbours for the adjacency sweep: every atom next to each of these, in both orders
-PROBES = [P("-"), P(":"), P("..."), I("1"), F("2.5"), Id("foo"), S("s"), P("+"), C("c"), U("n")]
+PROBES = [P("-"), P(":"), P("..."), I("1"), F("2.5"), Id("foo"), FE("1e3"), S("s"), P("+"), C("c"), U("n")]
 
 # composites nested inside other composites
 COMPOSITES = [L(), L(I("1")), L(P("+"), I("1"), I("2")), L(I("1"), tail=I("2")), L(Id("a"), tail=L(Id("b"), tail=L())),
               L(P("..."), P("...")), L(P("-"), tail=P("-")), V(), V(I("1"), S("two")), V(P("..."), P("<=")),
               L(L(Id("answer"), tail=U("e"))), L(U("n"), tail=U("v")), V(L(I("1"), tail=V(I("2")))),
-              L(K("colon", "k"), I("-1"), K("octo", "k"), F("-2.5"))]
+              L(K("colon", "k"), I("-1"), K("octo", "k"), F("-2.5"), FE("-2.5e-3"))]
 
 
 def main():
